@@ -738,7 +738,13 @@ impl<'a> Gen<'a> {
             self.used.insert("underscore-read-after-removed-call");
             let callee = self.callee();
             self.line("local _ = 9");
-            self.line(&format!("{}(t.x)", callee));
+            if self.rng.chance(1, 2) {
+                self.line(&format!("{}(t.x)", callee));
+            } else {
+                // F36 (fixed): a later kept argument reads `_`
+                self.used.insert("underscore-read-in-later-argument");
+                self.line(&format!("{}(t.x, emit(_), n + 1, sink(_))", callee));
+            }
             self.line("emit(_)");
             return;
         }
